@@ -5,7 +5,7 @@ import z3
 
 from lib.runner import Outcome, Unit
 from symlite.core import Stats
-from symlite.values import (AbsStr, NullLogger, RopeStr, SymInt, fresh_bool, fresh_int, hash_zero, lift, sym_len)
+from symlite.values import (AbsStr, NullLogger, RopeStr, SymInt, choose, fresh_bool, fresh_int, hash_zero, lift, sym_len)
 
 import sqlfluff.core.parser.lexer as lx
 from sqlfluff.core.parser.lexer import (BlockTracker, LexedElement, PyLexer, RegexLexer, StringLexer, _iter_segments)
@@ -146,6 +146,31 @@ def make_iter(shape, NE, with_unlexable=False):
             elems = PyLexer.map_template_slices(lexed, tf)  # REAL: running templated offsets
             with hash_zero():
                 segs = list(_iter_segments(elems, tf, add_indents=True))  # REAL
+            if bool(fresh_bool(c, "through_linter_filter")):
+                # the token stream as the PARSER receives it: Linter._lex_templated_file filters template indents when
+                # template_blocks_indent is off (or the indents do not balance); tokens and placeholders must survive
+                import sqlfluff.core.linter.linter as _lm
+                tbi = choose(c, "template_blocks_indent", [True, False, "force"])
+
+                class _Cfg:
+                    def get(self, key, section="core", default=None):
+                        return tbi if key == "template_blocks_indent" else default
+
+                class _Lexer:
+                    def __init__(self, config=None):
+                        pass
+
+                    def lex(self, templated_file):
+                        return tuple(segs), []
+                real_lexer, real_log = _lm.Lexer, _lm.linter_logger
+                _lm.Lexer, _lm.linter_logger = _Lexer, NullLogger()
+                try:
+                    out, _ = _lm.Linter._lex_templated_file(tf, _Cfg())   # REAL
+                finally:
+                    _lm.Lexer, _lm.linter_logger = real_lexer, real_log
+                segs = list(out)
+                if tbi is False:
+                    c.witness("template_indents_filtered")
             ok = z3.BoolVal(True)
             tp = z3.IntVal(0)
             sp = z3.IntVal(0)
@@ -230,6 +255,25 @@ def replay_iter(shape, NE, with_unlexable=False):
             p += ln
         elems = PyLexer.map_template_slices(lexed, tf)
         segs = list(_iter_segments(elems, tf, add_indents=True))
+        if cex.get("through_linter_filter"):
+            import sqlfluff.core.linter.linter as _lm
+            from sqlfluff.core import FluffConfig
+            tbi = [True, False, "force"][int(cex.get("template_blocks_indent", 0))]
+            cfg = FluffConfig(overrides={"dialect": "ansi"}, configs={"indentation": {"template_blocks_indent": tbi}})
+            pre = segs
+
+            class _Lexer:
+                def __init__(self, config=None):
+                    pass
+
+                def lex(self, templated_file):
+                    return tuple(pre), []
+            real_lexer = _lm.Lexer
+            _lm.Lexer = _Lexer
+            try:
+                segs = list(_lm.Linter._lex_templated_file(tf, cfg)[0])   # REAL filter with a REAL config
+            finally:
+                _lm.Lexer = real_lexer
         problems = []
         toks = [s for s in segs if not s.is_meta]
         if "".join(s.raw for s in toks) != templ:
